@@ -270,6 +270,15 @@ package mail
 //@   ensures[C20:esc-of-the-verdict] (err != nil && sentenv(err)) ==> as(err, "*mail.SendError").enhancedStatusCode == escof(world.verdict, world.escsup)
 //@   ensures[C20:one-entry-per-refused-recipient] (err != nil && as(err, "*mail.SendError").Reason == 3) ==> len(as(err, "*mail.SendError").rcpt) == world.nrej && world.nrej >= 1
 //@   loop 1 invariant[C20:verdict] rcptSendErr != nil && len(rcptSendErr.rcpt) == world.nrej && world.nrej >= 0 && (hasError <==> world.nrej >= 1) && (hasError ==> (rcptSendErr.Reason == 3 && world.step == 3 && rcptSendErr.errcode == codeof(world.verdict) && rcptSendErr.isTemp == tempof(world.verdict) && rcptSendErr.enhancedStatusCode == escof(world.verdict, escSupport)))
+// the accessors hand out what sendSingleMsg recorded (the verdict), nothing derived from other fields
+//@ func mail.SendError.IsTemp () (r)
+//@   ensures[C20:accessor] r == (e != nil && e.isTemp)
+//@ func mail.SendError.ErrorCode () (r)
+//@   ensures[C20:accessor] r == (e != nil ? e.errcode : 0)
+//@ func mail.SendError.EnhancedStatusCode () (r)
+//@   ensures[C20:accessor] r == (e != nil ? e.enhancedStatusCode : "")
+//@ func mail.SendError.Msg () (r)
+//@   ensures[C20:accessor] e != nil ==> r == e.affectedMsg
 //@ func mail.Client.SendWithSMTPClient
 //@   requires[C20:wf] c != nil
 //@ at mail.Client.SendWithSMTPClient mail.Client.sendSingleMsg#1 after assert[C20:no-stale-error] result == nil ==> message.sendError == nil
@@ -782,3 +791,11 @@ package mail
 //@ func mail.msgWriter.writePart (part, charset)
 //@   requires[C08:wf] mw != nil && part != nil
 //@   ensures[C08:description-at-every-depth] part.description != "" ==> mw.descr
+// nothing of an earlier signature is hashed or emitted: when signMessage renders the entity, no part of the
+// Msg is a signature part (they are filtered out first, wherever they sit in the list)
+//@ func mail.Msg.signMessage () (err)
+//@   requires[C08:parts] forall i :: 0 <= i && i < len(m.parts) ==> m.parts[i] != nil
+//@   loop 1 invariant[C08:filtered] freshslice(parts) && (forall j :: 0 <= j && j < len(parts) ==> (parts[j] != nil && !parts[j].smime))
+//@ at mail.Msg.signMessage mail.msgWriter.writeMsg#1 before assert[C08:no-stale-signature-part] forall i :: 0 <= i && i < len(m.parts) ==> !m.parts[i].smime
+//@ func mail.Msg.WriteTo (writer) (n, err)
+//@   requires[C08:hist] forall i :: 0 <= i && i < len(m.parts) ==> m.parts[i] != nil
